@@ -147,6 +147,63 @@ def analyse(F, fn):
     return res, len(paths)
 
 
+def analyse_branches(F, fn):
+    """R3.3: a conditional jump on a boolean hint output lets the prover choose the branch; every CASM
+    path from either successor of the jump to an exit must pass a range-check write (or a summarised
+    helper / a later equation that is a real constraint).  Returns {(kind, ordinal): (ok, detail, line)}."""
+    B = Builder(F, fn)
+    paths = B.enumerate()
+    hint_sites = sorted(set(e.site for ev in paths for e in ev if e.kind == "hint"))
+    out = {}
+    for ev in paths:
+        L = Listing(ev)
+        if not any(x.kind == "build" for x in ev):
+            # a helper fragment: leaving the listing continues in the caller, which is analysed on its own
+            # with this helper summarised; the branches cannot be followed across that boundary
+            continue
+        rc_vars = set(v for v, nm in B.var_names.items() if nm and RC_NAME.search(nm))
+        rc_vars |= set(v for v, o in B.var_origin.items() if o[0] in ("param", "sym") and RC_NAME.search(str(o[1])))
+        validating = set()
+        for j, x in enumerate(ev):
+            if x.kind == "buf_write" and (L.origin_closure(x.args[0]) & rc_vars) and L.definitions.get(j) != x.args[1]:
+                validating.add(j)
+            elif x.kind == "helper":
+                validating.add(j)
+            elif x.kind == "fail":
+                validating.add(j)
+        for j, parts in L.equations:
+            validating.add(j)
+        for i, e in enumerate(ev):
+            if e.kind != "hint" or e.hint[0] not in BOOLEAN:
+                continue
+            kind, n_in = e.hint
+            o = e.args[n_in:][0] if e.args[n_in:] else None
+            if o is None or (i, o) in L.preset_outputs:
+                continue
+            key = (kind, hint_sites.index(e.site))
+            for j, x in enumerate(ev):
+                if j > i and x.kind == "jump_nz" and x.args[0] == o:
+                    # successors of the jump
+                    nxt = j + 1 if j + 1 < L.n else L.n
+                    tgt = L.labels.get(x.label, L.n)
+                    bad = []
+                    for nm, s in (("fallthrough", nxt), ("taken:" + str(x.label), tgt)):
+                        if s == L.n:
+                            bad.append(nm + " exits immediately")
+                            continue
+                        # exits reachable from s (inclusive) avoiding validating events
+                        if s in validating:
+                            continue
+                        if L.exits_avoiding(s, validating, set()) :
+                            bad.append(nm)
+                    okv, det, ln = out.get(key, (True, "", e.line))
+                    if bad:
+                        out[key] = (False, "branch(es) %s reach an exit without any range check / equation" % bad, e.line)
+                    else:
+                        out.setdefault(key, (True, "both branches are validated", e.line))
+    return out
+
+
 def pinned(L, B, v, rc_vars, alloc_out, ev, _depth=0):
     """A value is *determined* when it is computed only from inputs and constants, i.e. no free hint
     output lies on its backward slice (allocation addresses excepted).  A range check bounds a value but
@@ -211,6 +268,15 @@ def run(ctx):
             if len(ctx.samples) < 8:
                 ctx.sample({"builder": short, "hint": kind, "output": r["name"], "paths": r["paths"],
                             "used": r["used"], "range_checked": r["ranged"] if kind in WITNESS else None})
+        for (kind, ordinal), (okb, det, line) in sorted(analyse_branches(F, fn).items()):
+            key = "%s|%s#%d.branches" % (short, kind, ordinal)
+            k3 = "R3.3|" + key
+            msg = "prover-chosen branch on %s: %s" % (kind, det)
+            if not okb and k3 in exc:
+                used_exc.add(k3)
+                okb = True
+                msg += " [exception: %s]" % exc[k3]
+            ctx.ob("R3.3", key, okb, msg, fn.where(line))
     for k in sorted(set(exc) - used_exc):
         ctx.ob("R3.x", "stale-exception:" + k, False, "exception table row no longer matches anything", EXC)
     ctx.floor("hint outputs analysed", n_hints, 60)
